@@ -200,7 +200,11 @@ def run_impl(f):
 # ================================================================ smooth
 def _smooth_impl(c):
     from pydl import smooth
-    r = smooth(np.array(c['x'], dtype=np.float64), c['w'], edge_truncate=c['trunc'])
+    a = np.array(c['x'], dtype=np.float64)
+    a0 = a.copy()
+    r = smooth(a, c['w'], edge_truncate=c['trunc'])
+    if not np.array_equal(a, a0, equal_nan=True):
+        return {'err': 'input-array-modified'}     # every later use of the caller's array is then wrong
     return {'ok': fb(r.tolist()), 'shape': list(r.shape), 'dtype': str(r.dtype)}
 
 
@@ -318,10 +322,15 @@ def _median_plain_cases(ctx):
 def _median_impl(c):
     from pydl import median
     a = np.array(c['x'], dtype=np.float64).reshape(c['shape'])
+    a0 = a.copy()
     if 'axis' in c:
         r = median(a, axis=c['axis'], even=c['even'])
+        if not np.array_equal(a, a0, equal_nan=True):
+            return {'err': 'input-array-modified'}
         return {'ok': fb(np.asarray(r).ravel().tolist()), 'shape': list(np.shape(r))}
     r = median(a, even=c['even'])
+    if not np.array_equal(a, a0, equal_nan=True):
+        return {'err': 'input-array-modified'}
     return {'ok': fb([float(r)]), 'shape': list(np.shape(r))}
 
 
@@ -392,7 +401,10 @@ def _medrun_impl(c):
     a = np.array(c['x'], dtype=np.float64)
     if c['stream'] == 'medrun2':
         a = a.reshape(c['shape'])
+    a0 = a.copy()
     r = median(a, width=c['w'])
+    if not np.array_equal(a, a0, equal_nan=True):
+        return {'err': 'input-array-modified'}
     return {'ok': fb(r.ravel().tolist()), 'shape': list(r.shape), 'dtype': str(r.dtype)}
 
 
@@ -457,6 +469,19 @@ def _uniq_cases(ctx):
 
     def runs(n_runs, isfloat):
         vals = sorted(set((rng.uniform(-5, 5) if isfloat else rng.randrange(-20, 21)) for _ in range(n_runs)))
+        if isfloat and rng.random() < 0.3:
+            # adjacent doubles, tiny magnitudes and denormals are distinct values, however close
+            k = rng.randrange(3)
+            if k == 0:
+                v0 = rng.choice([1.0, -3.5, 1e-8, 123456.0])
+                vals = [v0]
+                for _ in range(n_runs - 1):
+                    vals.append(float(np.nextafter(vals[-1], np.inf)))
+            elif k == 1:
+                sc = rng.choice([1e-20, 1e-25, 1e-300])
+                vals = sorted(set(v * sc for v in vals))
+            else:
+                vals = sorted(set(5e-324 * rng.randrange(0, 40) for _ in range(n_runs)))
         out = []
         for v in vals:
             out += [v] * rng.choice([1, 1, 1, 2, 3, rng.randrange(1, 8)])
@@ -491,10 +516,13 @@ def _uniq_cases(ctx):
 def _uniq_impl(c):
     from pydl import uniq
     x = np.array(c['x'], dtype=np.float64 if c['float'] else np.int64)
+    x0 = x.copy()
     if 'index' in c:
         r = uniq(x, np.array(c['index'], dtype=np.int64))
     else:
         r = uniq(x)
+    if not np.array_equal(x, x0):
+        return {'err': 'input-array-modified'}
     if r.ndim != 1 or r.dtype.kind != 'i':
         return {'ok': [int(v) for v in r.ravel()], 'bad': 'ndim %d dtype %s' % (r.ndim, r.dtype)}
     return {'ok': [int(v) for v in r]}
